@@ -628,7 +628,8 @@ class ParameterConfig:
       value = value.value
     try:
       self._assert_feasible(value)
-    except (TypeError, ValueError):
+    except (TypeError, ValueError, OverflowError):
+      # OverflowError: int(float('inf')) in the INTEGER type check.
       return False
     return True
 
